@@ -18,6 +18,7 @@ An operation is a JSON list, a case is dict(cls=..., init=..., ops=[...]):
   ['iterrm', R] / ['reviterrm', R]                 iterate (forward / reversed), removing every visited element that is in R
 """
 import itertools
+import signal
 
 import vlib.fresh_ply  # noqa: F401
 import xtuml
@@ -29,6 +30,7 @@ from vlib.bounded import item
 U = (0, 1, 2)
 ABSENT = 3
 CLASSES = {'OrderedSet': OrderedSet, 'QuerySet': QuerySet}
+MAX_TIMEOUTS = 3
 KEY_CAP = 100000   # recorded distinct keys per shard (memory); evaluations are always counted
 
 
@@ -53,6 +55,33 @@ class Failure(Exception):
         self.clause, self.observed, self.required = clause, observed, required
 
 
+ITER_LIMIT = 16      # no set in these items ever holds more than 7 elements
+CPU_LIMIT_S = 1.0    # CPU seconds per case (ITIMER_VIRTUAL); a case normally takes well under a millisecond
+
+
+class _Timeout(BaseException):
+    pass
+
+
+def _on_timer(signum, frame):
+    raise _Timeout()
+
+
+try:
+    signal.signal(signal.SIGVTALRM, _on_timer)
+    _HANDLER = True
+except ValueError:       # imported outside the main thread: no guard available
+    _HANDLER = False
+
+
+def _bounded(iterator, what):
+    """list(iterator), but a walk that does not terminate (corrupt structure) is reported instead of followed."""
+    out = list(itertools.islice(iterator, ITER_LIMIT + 1))
+    if len(out) > ITER_LIMIT:
+        raise Failure('contents', dict(what=what, iteration='does not terminate', begins=out[:8]), 'a finite walk over the elements')
+    return out
+
+
 def _operand(cls, s, operand, form):
     if form == 'self':
         return s
@@ -73,12 +102,12 @@ def _operand_elems(ref, operand, form):
 # consistency of any ordered set with expected contents (used for the receiver and for results of | & - ^)
 # ----------------------------------------------------------------------------------------------------------------------
 def _check_contents(s, expected_elems, what):
-    fwd = list(s)
+    fwd = _bounded(iter(s), what)
     if len(fwd) != len(set(fwd)) or set(fwd) != set(expected_elems):
-        raise Failure('contents', dict(what=what, iterated=fwd), dict(elements=sorted(set(expected_elems))))
+        raise Failure('contents', dict(what=what, iterated=fwd), dict(elements=sorted(set(expected_elems), key=repr)))
     if len(s) != len(set(expected_elems)):
         raise Failure('length', dict(what=what, len=len(s)), dict(len=len(set(expected_elems))))
-    rev = list(reversed(s))
+    rev = _bounded(reversed(s), what + ' (reversed)')
     if rev != fwd[::-1]:
         raise Failure('reverse-iteration', dict(what=what, reversed=rev, forward=fwd), dict(reversed=fwd[::-1]))
     return fwd
@@ -139,8 +168,9 @@ def observe(cls, s, ref, level=2, salt=0):
                 raise Failure('equality', dict(other=name, elements=other, receiver=same, eq=(s == o), ne=(s != o),
                                                eq_reflected=(o == s)), dict(eq=False, ne=True))
     # observations must not have changed anything
-    if list(s) != ref:
-        raise Failure('insertion-order', dict(iterated=list(s), after='observations'), dict(order=list(ref)))
+    again = _bounded(iter(s), 'receiver after observations')
+    if again != ref:
+        raise Failure('insertion-order', dict(iterated=again, after='observations'), dict(order=list(ref)))
 
 
 # ----------------------------------------------------------------------------------------------------------------------
@@ -292,7 +322,24 @@ def make(case):
 FULL_EQ_LEN = 3    # sequences up to this length get the full equality observation (they reach all 16 abstract states)
 
 
-def run_case(case, check_every_step=False, full_eq_len=FULL_EQ_LEN):
+def _guarded(fn, on_timeout):
+    """fn under a CPU-time limit: operations of the library iterate internally, a corrupt structure may loop for ever."""
+    def wrapper(*args, **kw):
+        if not _HANDLER:
+            return fn(*args, **kw)
+        try:
+            signal.setitimer(signal.ITIMER_VIRTUAL, CPU_LIMIT_S)
+            try:
+                return fn(*args, **kw)
+            finally:
+                signal.setitimer(signal.ITIMER_VIRTUAL, 0)
+        except _Timeout:
+            return on_timeout(Failure('bounded-time', dict(cpu_seconds='> %s' % CPU_LIMIT_S),
+                                      'every operation on a set of <= 7 elements terminates'), *args, **kw)
+    return wrapper
+
+
+def _run_case(case, check_every_step=False, full_eq_len=FULL_EQ_LEN):
     """Runs a case on the real code.  Checks the last step (and the state after it); with check_every_step all steps.
     Returns None or a Failure."""
     try:
@@ -300,19 +347,36 @@ def run_case(case, check_every_step=False, full_eq_len=FULL_EQ_LEN):
         ops = case['ops']
         if not ops or check_every_step:
             observe(cls, s, ref)
+        elif _bounded(iter(s), 'receiver') != ref:      # the constructor already fails: reported by the case without operations
+            return None
     except Failure as f:
-        return f
+        return f if (not case['ops'] or check_every_step) else None
     n = len(ops)
     for i, op in enumerate(ops):
+        _PROGRESS[0] = i
         last = (i == n - 1) or check_every_step
         try:
-            s, ref = step(cls, s, ref, op, checked=last)
-            if last:
+            s, ref = step(cls, s, ref, op, checked=True)
+            if not last:
+                if _bounded(iter(s), 'receiver') != ref:      # the prefix already fails: reported by the shorter case
+                    return None
+            else:
                 observe(cls, s, ref, level=2 if (check_every_step or n <= full_eq_len) else 1, salt=n + len(ref) + i)
         except Failure as f:
             # a failure inside the prefix belongs to the shorter case (every prefix is enumerated as a case of its own)
             return f if last else None
     return None
+
+
+_PROGRESS = [0]
+
+
+def _timeout_in_case(f, case, check_every_step=False, full_eq_len=None):
+    # a timeout inside the prefix belongs to the shorter case
+    return f if (check_every_step or _PROGRESS[0] >= len(case['ops']) - 1) else None
+
+
+run_case = _guarded(_run_case, _timeout_in_case)
 
 
 def replay(item_name, input):
@@ -374,6 +438,7 @@ def _enumerate(ctx, heads, alphabet, depth, full_eq_len=FULL_EQ_LEN):
     """heads: list of case dicts without 'ops'.  Each sequence is a case of its own; the last step is checked."""
     i = -1
     noted = False
+    timeouts = 0
     for head in heads:
         for idx in itertools.chain([()], _sequences(alphabet, depth)):
             i += 1
@@ -391,6 +456,12 @@ def _enumerate(ctx, heads, alphabet, depth, full_eq_len=FULL_EQ_LEN):
             f = run_case(case, full_eq_len=full_eq_len)
             if f is not None:
                 ctx.check(False, clause=f.clause, input=case, observed=f.observed, required=f.required)
+                if f.clause == 'bounded-time':
+                    timeouts += 1
+                    if timeouts >= MAX_TIMEOUTS:
+                        ctx.exhausted = False
+                        ctx.note('enumeration stopped after %d cases that ran into the CPU limit' % timeouts)
+                        return False
     return True
 
 
@@ -468,14 +539,19 @@ def _random_op(rng, universe):
     return [rng.choice(['iterrm', 'iterrm', 'reviterrm']), operand]
 
 
-def _shrink(case, clause, deadline_checks=400):
+def _shrink(case, clause, deadline_checks=400, seconds=8.0):
     """Greedy removal of operations while the same clause still fails."""
+    import time
     ops = list(case['ops'])
     budget = deadline_checks
+    stop = time.time() + seconds
     changed = True
     while changed and budget > 0:
         changed = False
         for i in range(len(ops) - 1, -1, -1):
+            if time.time() > stop:
+                budget = 0
+                break
             cand = dict(case, ops=ops[:i] + ops[i + 1:])
             budget -= 1
             f = run_case(cand, check_every_step=True)
@@ -495,7 +571,7 @@ def _shrink(case, clause, deadline_checks=400):
 def random_long(ctx):
     universe = [0, 1, 2, 'a', 'b', '']
     n = 150 if ctx.quick else 20000
-    done = 0
+    done = failures = 0
     for k in range(n):
         if ctx.expired():
             break
@@ -511,6 +587,10 @@ def random_long(ctx):
             if f2 is None:
                 small, f2 = dict(case, ops=case['ops'][:upto + 1]), fail
             ctx.check(False, clause=f2.clause, input=small, observed=f2.observed, required=f2.required)
+            failures += 1
+            if failures >= 5:
+                ctx.note('sampling stopped after 5 failing sequences')
+                break
     ctx.exhausted = None   # sampling, not exhaustive
     ctx.note('random sampling (seeded): %d sequences in this shard' % done)
 
@@ -519,7 +599,7 @@ def rng_sample(rng, universe):
     return rng.sample(universe, rng.randint(0, len(universe)))
 
 
-def run_case_long(case):
+def _run_case_long(case):
     """Every step checked; membership/equality observations use the universe of the short items plus the elements present."""
     try:
         cls, s, ref = make(case)
@@ -527,6 +607,7 @@ def run_case_long(case):
     except Failure as f:
         return f, -1
     for i, op in enumerate(case['ops']):
+        _PROGRESS[0] = i
         try:
             s, ref = step(cls, s, ref, op, checked=True)
             observe(cls, s, ref, level=2 if i % 8 == 0 else 1, salt=i)
@@ -536,3 +617,6 @@ def run_case_long(case):
         except Failure as f:
             return f, i
     return None
+
+
+run_case_long = _guarded(_run_case_long, lambda f, case: (f, _PROGRESS[0]))
